@@ -41,6 +41,11 @@ def v(prop, vid, kind, file, old, new, rule=None, what=""):
     C.setdefault(prop, []).append({"id": vid, "kind": kind, "file": file, "old": old, "new": new, "rule": rule, "what": what})
 
 
+v("C04", "nmne-setting-only-when-declared", "break", GAME,
+  '''        NetworkInterface.nmne_config = NMNEConfig(**network_config.get("nmne_config", {}))''',
+  '''        if "nmne_config" in network_config:
+            NetworkInterface.nmne_config = NMNEConfig(**network_config["nmne_config"])''', "R4.1", "a scenario without the section inherits the previous game's NMNE settings")
+
 # ------------------------------------------------------------------------------------------------ C05
 v("C05", "unknown-key-success", "break", CORE,
   'return RequestResponse(status="unreachable", data={"reason": msg})',
@@ -849,6 +854,29 @@ v("C15", "force-ignored", "break", ACT_FILE,
   '''            config.file_name,
             config.verb,
         ]''', "R15.5", "the original defect")
+v("C15", "force-always-builds-a-new-file", "break", FS,
+  '''        file = folder.get_file(file_name)
+        if file:
+            self.sys_log.info(f"Cannot create file {file_name} as it already exists.")
+            if force:
+                self.sys_log.info(f"Replacing {file_name}")
+        else:''',
+  '''        file = folder.get_file(file_name)
+        if file and not force:
+            self.sys_log.info(f"Cannot create file {file_name} as it already exists.")
+        else:''', "R15.6", "force inserts a second object under the live name")
+v("C15", "copy-file-gets-a-second-caller", "break", FS,
+  '''            # add file to dst
+            dst_folder.add_file(file)''',
+  '''            # add file to dst
+            self.copy_file(src_folder_name, src_file_name, dst_folder_name)''', "R15.6", "forced copy reached without the delete that protects it")
+v("C15", "benign-lookup-compared-with-none", "benign", FS,
+  '''        file = folder.get_file(file_name)
+        if file:
+            self.sys_log.info(f"Cannot create file {file_name} as it already exists.")''',
+  '''        file = folder.get_file(file_name)
+        if file is not None:
+            self.sys_log.info(f"Cannot create file {file_name} as it already exists.")''', None, "explicit None test")
 v("C15", "benign-pop-default", "benign", FOLDER,
   '''        if file.deleted:
             self.deleted_files.pop(file.uuid)
